@@ -10,6 +10,7 @@
    The statement layer elaborates a statement into the sequence of (context, term) / text items in the order in
    which QueryBuilder.get_sql calls the clause renderers (order lists regenerated from the source: gen/C06Table.v). *)
 From PV Require Import Base Crit gen.TermsTable Terms gen.C06Table.
+Local Open Scope list_scope.
 
 (* ------------------------------------------------------------------------------------------------ *)
 (* collector classes, collected values                                                                *)
@@ -104,8 +105,8 @@ Definition is_lit (t : tok) : bool := match t with KLit _ _ => true | _ => false
 Definition no_auto (l : list tok) : bool := forallb (fun t => negb (is_auto t)) l.
 Fixpoint autos (l : list tok) : list (nat * string) :=
   match l with [] => [] | KAuto n s :: r => (n, s) :: autos r | _ :: r => autos r end.
-Definition count_auto (l : list tok) : nat := length (autos l).
-Definition count_lit (l : list tok) : nat := length (filter is_lit l).
+Definition count_auto (l : list tok) : nat := List.length (autos l).
+Definition count_lit (l : list tok) : nat := List.length (filter is_lit l).
 Fixpoint exps (l : list tok) : list string :=
   match l with [] => [] | KExp s :: r => s :: exps r | _ :: r => exps r end.
 
@@ -153,8 +154,8 @@ Definition val_leaf (isf : string -> bool) (m : option style) (c : ctx) (l : lit
   match m with
   | None => ret (KLit l txt :: alias_toks c (q c) alias) st
   | Some sty =>
-      let ph := ph_text sty (length st) in                        (* param_sql, computed BEFORE the update *)
-      ret (KAuto (length st) ph :: alias_toks c (q c) alias)
+      let ph := ph_text sty (List.length st) in                        (* param_sql, computed BEFORE the update *)
+      ret (KAuto (List.length st) ph :: alias_toks c (q c) alias)
           (collect sty st (param_key sty ph) (coll isf l))
   end.
 
